@@ -381,6 +381,9 @@ def vary_names(decls, every=3, upper=True, raw=True):
         d.setdefault("args_trailing", k % 4 >= 2)
         # every fourth declaration is produced by a macro_rules! expansion (rustgen.macro_wrapped; trace legs only)
         d.setdefault("wrap", "macro" if k % 4 == 1 else "")
+        # the spelling of a declared default (Corpus!DefForms): literal in several radixes / with a type suffix, or a named constant
+        if d.get("def") and d.get("defform", "lit") == "lit":
+            d["defform"] = ["lit", "const", "dec", "hexsuf", "const", "bin_", "decsuf", "const", "hexsuf_", "oct"][k % 10]
         for j, e in enumerate(d.get("enums", [])):
             e.setdefault("args_rev", (k + j) % 2 == 1)          # #[bitenum(exhaustive = .., uN)]
             if (k + j) % 3 == 0 and e["variants"]:
